@@ -1474,6 +1474,11 @@ func init() {
 					i := r.Intn(len(s.Pkgs))
 					s.Pkgs[i].Extra = append(s.Pkgs[i].Extra, "dangling")
 				}
+				if r.Chance(10) {
+					// a go.work workspace of two modules; the first package of the main module imports a package of the other
+					// one, which is no entrypoint: a dependency — not local, not generated, not in gengo.sum
+					s.Zoo, s.ZooFns, s.Work, s.All, s.GoVer = 3, true, true, true, "1.24"
+				}
 			}),
 		{
 			Name: "roundtrip", Quick: 400, Thorough: 4000, New: func() Case { return &sumCase{} },
